@@ -255,6 +255,34 @@ func Modules(ms *yang.Modules, o Options) string {
 			fmt.Fprintf(&sb, " %s->%s", k, mm[k].FullName())
 		}
 		sb.WriteString("\n")
+		if kind == "module" {
+			// the lookup by namespace: the one module of that namespace, or the word that several
+			// have it (which two the library's message names is its own business)
+			nss := map[string]bool{}
+			for _, m := range mm {
+				if m.Namespace != nil {
+					nss[m.Namespace.Name] = true
+				}
+			}
+			var ns []string
+			for n := range nss {
+				ns = append(ns, n)
+			}
+			sort.Strings(ns)
+			for _, n := range ns {
+				m, err := ms.FindModuleByNamespace(n)
+				switch {
+				case err != nil && strings.Contains(err.Error(), "two or more"):
+					fmt.Fprintf(&sb, "namespace %s -> several modules\n", n)
+				case err != nil:
+					fmt.Fprintf(&sb, "namespace %s -> error: %v\n", n, err)
+				case m == nil:
+					fmt.Fprintf(&sb, "namespace %s -> nil without error\n", n)
+				default:
+					fmt.Fprintf(&sb, "namespace %s -> %s\n", n, m.FullName())
+				}
+			}
+		}
 		done := map[*yang.Module]bool{}
 		for _, k := range keys {
 			m := mm[k]
@@ -285,6 +313,24 @@ func Modules(ms *yang.Modules, o Options) string {
 					sb.WriteString(identName(v) + " ")
 				}
 				sb.WriteString("]\n")
+				// the lookups by name say what the list says: a name is defined exactly when an
+				// identity of that name is listed, and the one handed out is a listed one
+				for _, name := range identityNames(ms) {
+					var listed []*yang.Identity
+					for _, v := range id.Values {
+						if v.Name == name {
+							listed = append(listed, v)
+						}
+					}
+					got, def := id.GetValue(name), id.IsDefined(name)
+					among := got == nil
+					for _, v := range listed {
+						among = among || v == got
+					}
+					if def != (len(listed) > 0) || (got != nil) != def || !among {
+						fmt.Fprintf(&sb, "  LOOKUP-BY-NAME-DISAGREES-WITH-VALUES: %s: IsDefined(%s)=%v GetValue=%v, listed under that name: %d\n", identName(id), name, def, got != nil, len(listed))
+					}
+				}
 			}
 			if errs := e.GetErrors(); len(errs) > 0 {
 				fmt.Fprintf(&sb, " GetErrors=%d\n", len(errs))
@@ -292,6 +338,24 @@ func Modules(ms *yang.Modules, o Options) string {
 		}
 	}
 	return sb.String()
+}
+
+// identityNames: the bare names of all identities of all loaded modules and submodules, sorted.
+func identityNames(ms *yang.Modules) []string {
+	seen := map[string]bool{}
+	for _, mm := range []map[string]*yang.Module{ms.Modules, ms.SubModules} {
+		for _, m := range mm {
+			for _, id := range m.Identity {
+				seen[id.Name] = true
+			}
+		}
+	}
+	var out []string
+	for n := range seen {
+		out = append(out, n)
+	}
+	sort.Strings(out)
+	return out
 }
 
 // Errors renders an error list in order.
